@@ -10,6 +10,10 @@ Two parts (DESIGN.md 2.6):
     (harness/ref/oracle.py: absent data read as zeros) on generated trees, metafiles of every creator
     and of the reference encoder (incl. v1 metafiles "of another tool" whose ordinary files carry the BEP 47
     attributes x / h, with and without pad entries: ATTR_KINDS), and damage sets.
+    At SCALE (e2e_scale; end to end only, nothing of it goes to the extracted models): the payloads of harness/scale.py
+    (piece lengths 2 .. 16 MiB, 32 MiB in the thorough tier; file sizes aimed at 1 / 4 / 8 MiB read windows) and payloads
+    with DUPLICATE CONTENT (independent copies, 48 KiB .. 3 MiB, piece lengths 16 KiB .. 4 MiB), creators' and reference
+    metafiles, intact and damaged, root and parent, judged by the same `judge`.
 A `mode` ("C04" | "C05" | "C16") selects which disk states are generated and which observable is judged.
 """
 import os
@@ -1580,6 +1584,26 @@ def _aimed_utf8_one(ctx, mode, tmp, data, klass):
 
 
 # ----------------------------------------------------------------------- end to end at SCALE
+SCALE_RULE = (
+    "  AT SCALE (end to end only; same judge -- the reference verifier of harness/ref/oracle.py -- as the small cases; nothing of it goes to "
+    "the extracted models): (a) the aimed payloads of harness/scale.py -- piece lengths 2 / 4 / 8 / 16 MiB (thorough: also 32 MiB and random "
+    "shapes k MiB + r), files of 1 .. 21 MiB (65 MiB) whose sizes relate to 1 / 4 / 8 MiB read windows: a file that completes a piece inside "
+    "itself and leaves a non-zero multiple of 1 MiB, more than 8 MiB left to read at 16 MiB pieces, a last piece just above 4 MiB at 8 MiB "
+    "pieces, sizes one byte either side of the piece length, a single file -- and (b) payloads with DUPLICATE CONTENT: two or three "
+    "INDEPENDENT copies (no links) of the same bytes, 48 KiB .. 3 MiB either side of 1 MiB, first / last / in a subdirectory, around a "
+    "different file, at piece lengths 16 / 32 / 64 KiB and 2 / 4 MiB (copies longer and not longer than a piece).  Metafiles: quick tier five "
+    "kinds per case rotating (a v1 creator, a reference v1 encoding incl. the attr x/h and pad-entry ones, reference v2, reference hybrid, one "
+    "of v2-class / v2-asm / hybrid-class / hybrid-asm; duplicates: three), thorough tier every kind for every template.  States by mode: "
+    "C05 intact (root AND parent, and an object that saw a damaged tree asked again once the content is back); C04 damage sets (an object "
+    "that saw the intact tree asked again; first state also through the parent); C16 intact + damage sets (value, verdict stream, an object "
+    "reused after the disk changed).  Damage at scale: 1..3 of flip (bits recorded) / truncate / remove at offsets next to multiples of "
+    "1 / 4 / 8 MiB and of the piece length (first, second, last; one byte either side), both ends, random ones, truncation to 0; for duplicate "
+    "content aimed sets: ONLY the later copy flipped, ONLY the later copy truncated, ONLY the earlier copy flipped (thorough: later copy "
+    "removed, both copies damaged differently, a middle copy).  A part through cli.execute.  Replays rebuild the payload from the recorded "
+    "case seed / family / index and apply the recorded damage.  The whole-run tie (recheck_model) also takes a small payload with two entries of "
+    "identical multi-piece content (independent copies first and last, a different file between them) for every v2-view kind and v1.")
+
+
 MIB = 1 << 20
 SCALE_SALT = 0x5CA1ED
 SCALE_RANDOM = {"dup": 10, "scale": 16}       # random cases per family after the templates (thorough tier)
@@ -1664,7 +1688,7 @@ def dup_groups(files):
 
 def dup_sets(rng, files, pl, mode, thorough):
     """damage sets aimed at duplicate content: [(class label, description)] -- ONLY the later copy (flip; truncation), ONLY the
-       earlier copy, (C16 / thorough) the later copy removed, both copies damaged in different places"""
+       earlier copy, (thorough tier) the later copy removed, both copies damaged in different places"""
     g = max(dup_groups(files), key=len)
     first, last = g[0], g[-1]
     L = len(files[first][1])
@@ -1673,7 +1697,7 @@ def dup_sets(rng, files, pl, mode, thorough):
     out = [("damage only in the LATER copy (flip)", [["flip", last, rng.choice(offs), rng.choice([0xFF, 0x01, 0x80])]]),
            ("damage only in the LATER copy (truncated, bytes left)", [["trunc", last, rng.choice(cuts)]]),
            ("damage only in the EARLIER copy", [["flip", first, rng.choice(offs), 0xFF]])]
-    if mode == "C16" or thorough:
+    if thorough:
         out.append(("the later copy removed", [["rm", last]]))
         a, b = rng.sample(offs, 2)
         out.append(("both copies damaged in different places", [["flip", first, a, 0x01], ["trunc", last, max(b, 1)]]))
@@ -1682,14 +1706,17 @@ def dup_sets(rng, files, pl, mode, thorough):
     return out
 
 
-def scale_kinds(cn, thorough, template):
+def scale_kinds(cn, thorough, template, family):
     """the metafile kinds of case cn at scale: every kind for the templates of the thorough tier; else five -- a v1 creator, a
        reference v1 encoding (at least one of the two without padding between the files), reference v2, reference hybrid and one
-       of the four v2-view creators -- rotating with the case number"""
+       of the four v2-view creators -- rotating with the case number (quick tier, duplicate content: three -- one of the v1-view
+       kinds, reference v2 or reference hybrid, one v2-view creator)"""
     if thorough and template:
         return list(KINDS)
-    return [("v1", "v1-align", "v1")[cn % 3], ("ref-v1", "ref-v1-attr", "ref-v1-attr-pad")[cn % 3], "ref-v2", "ref-hybrid",
-            ("v2-class", "hybrid-asm", "hybrid-class", "v2-asm")[cn % 4]]
+    v2c = ("v2-class", "hybrid-asm", "hybrid-class", "v2-asm")[cn % 4]
+    if family == "dup" and not thorough:
+        return [("ref-v1", "v1", "ref-v1-attr", "v1-align")[cn % 4], ("ref-v2", "ref-hybrid")[cn % 2], v2c]
+    return [("v1", "v1-align", "v1")[cn % 3], ("ref-v1", "ref-v1-attr", "ref-v1-attr-pad")[cn % 3], "ref-v2", "ref-hybrid", v2c]
 
 
 def scale_case(base, case_seed, family, n, thorough, kinds):
@@ -1746,12 +1773,12 @@ def e2e_scale(ctx, mode, tmp):
     thorough = ctx.tier == "thorough"
     plan = [("dup", n) for n in range(len(DUP_TEMPLATES) + (SCALE_RANDOM["dup"] if thorough else 0))] + \
            [("scale", n) for n in range(len(scale.templates(thorough)) + (SCALE_RANDOM["scale"] if thorough else 0))]
-    nsets = 3 if thorough else 2
+    nsets = 3 if thorough else (1 if mode == "C16" else 2)
     for cn, (family, n) in enumerate(plan):
         case_seed = ctx.rng.getrandbits(64)
         base = os.path.join(tmp, f"sc{cn}")
         template = n < (len(DUP_TEMPLATES) if family == "dup" else len(scale.templates(thorough)))
-        sc, gcl, aim, _ = scale_case(base, case_seed, family, n, thorough, scale_kinds(cn, thorough, template))
+        sc, gcl, aim, _ = scale_case(base, case_seed, family, n, thorough, scale_kinds(cn, thorough, template, family))
         recipe = {"scope": "scale", "case_seed": case_seed, "scale_family": family, "scale_index": n, "scale_thorough": thorough,
                   "aim": aim}
         for k, err in sc.errors.items():
@@ -1762,19 +1789,22 @@ def e2e_scale(ctx, mode, tmp):
         if mode != "C05":
             if family == "dup":
                 sets += [("duplicate content: " + lb, apply_desc(sc.files, d), d) for lb, d in dup_sets(drng, sc.files, sc.pl, mode, thorough)]
-            for _ in range(nsets if family == "scale" else 1):
+            for _ in range(nsets if family == "scale" else (1 if thorough else 0)):
                 st, d = scale_damage(drng, sc.files, sc.pl, drng.randrange(1, 4), sc.single)
                 sets.append((None, st, d))
         # objects that are kept and asked again after the disk changed (C04: they saw the intact tree; C05: a damaged one; C16: one
-        # object per kind that saw the intact tree).  Quick tier: the plan `results()` only
+        # object that saw the intact tree).  Templates of the thorough tier: every kind, every plan; else one kind (rotating), the plan
+        # `results()`
         plans = list(REUSE_PLANS) if thorough and template else ["results()"]
+        present = list(sc.metas)
+        held_kinds = set(present) if thorough and template else set(present[cn % len(present):][:1])
         reuse, held, ddesc = {}, {}, None
         if mode == "C05":
             dstate, ddesc = scale_damage(drng, sc.files, sc.pl, drng.randrange(1, 3), sc.single)
             write_changes(sc, intact, dstate)
         if mode in ("C04", "C05"):
-            for kind, (mf, _) in sc.metas.items():
-                reuse[kind] = Held(mf, sc.root, plans)
+            for kind in held_kinds:
+                reuse[kind] = Held(sc.metas[kind][0], sc.root, plans)
                 reuse[kind].ask_all()
         cur = dstate if mode == "C05" else intact
         for sn, (label, state, desc) in enumerate(sets):
@@ -1795,7 +1825,7 @@ def e2e_scale(ctx, mode, tmp):
                 where = ("scale-" if family == "scale" else "dup-") + ("v2" if per_file else "v1")
                 if mode == "C16":
                     impl = impl_run(mf, sc.root)
-                    if sn == 0:
+                    if sn == 0 and kind in held_kinds:
                         try:
                             held[kind] = new_checker(mf, sc.root)
                             trees.quiet(held[kind].results)
